@@ -444,3 +444,48 @@ Theorem rq_conflicts_ordered pre progs sched i j :
 Proof.
   apply (hbp_norace_ordered (rq_nthreads (q_init pre progs))); [apply rq_trace_wf|apply rq_monitor_silent].
 Qed.
+
+(* the variant in which the winner of Pop clears next.value races: two poppers, both have
+   read next.value (D4) when the first one's head CAS succeeds and it writes the cell *)
+Lemma rq_pop_clear_refuted :
+  hb_race (rq_trace_clear (q_init [5%Z; 6%Z] [[QPop]; [QPop]]) [0;0;0;0;0; 1;1;1;1;1; 0]).
+Proof. apply (hbp_sound 3). vm_compute. reflexivity. Qed.
+
+(* the same schedule on the code as it is: no race *)
+Lemma rq_pop_clear_schedule_ok :
+  ~ hb_race (rq_trace (q_init [5%Z; 6%Z] [[QPop]; [QPop]]) [0;0;0;0;0; 1;1;1;1;1; 0]).
+Proof. apply rq_race_free. Qed.
+
+(* ------------------------------------------------------------------ labelling vs yield sites
+   C01/C02 check at every step that the real goroutine is parked at the yield site the model
+   predicts ([q_site_pc]: 1 = queueLoad, 2 = queueCas).  The labelling agrees with that
+   classification: a step from a queueLoad site emits exactly one synchronisation event, an
+   acquire, first; a step from a queueCas site emits exactly one event, the CAS; a step from
+   no site (invocation) emits no synchronisation event. *)
+Lemma rq_sites s g i pc todo :
+  match q_site_pc pc with
+  | 0 => Forall (fun e => ~ rm_sync e) (fst (rq_step_pc s g i pc todo))
+  | 1 => exists o rest, fst (rq_step_pc s g i pc todo) = RAcq o :: rest
+                        /\ Forall (fun e => ~ rm_sync e) rest
+  | _ => exists b o, fst (rq_step_pc s g i pc todo) = [rq_cas b o]
+  end.
+Proof.
+  destruct pc; cbn [q_site_pc rq_step_pc fst].
+  - destruct todo as [|[v|] r]; cbn [fst]; repeat constructor. intros [].
+  - eexists _, _. split; [reflexivity|constructor].
+  - eexists _, _. split; [reflexivity|constructor].
+  - eexists _, _. split; [reflexivity|constructor].
+  - destruct (q_has_next s t); cbn [fst].
+    + exists false, (rq_next t). reflexivity.
+    + exists true, (rq_next t). reflexivity.
+  - eexists _, _. reflexivity.
+  - eexists _, _. reflexivity.
+  - eexists _, _. split; [reflexivity|constructor].
+  - eexists _, _. split; [reflexivity|constructor].
+  - eexists _, _. split; [reflexivity|constructor].
+  - eexists _, _. split; [reflexivity|].
+    destruct ((h =? q_hi s) && negb (h =? t) && nx); repeat constructor. intros [].
+  - eexists _, _. reflexivity.
+  - eexists _, _. reflexivity.
+  - constructor.
+Qed.
